@@ -184,7 +184,7 @@ def gen_case(kind, profile, seed, tier='quick'):
         rng = random.Random('dm/%s' % seed)
         return {'kind': 'delaymodel', 'dist': rng.choice(['normal', 'poisson', 'uniform']),
                 'degree': rng.choice(['LOW', 'MID', 'HIGH', 'NONE']),
-                'prob': rng.choice([0.0, 0.05, 0.3, 0.5, 0.9, 1.0]), 'seed': rng.choice([20, 0, 1, 7, 99, rng.randint(0, 10 ** 6)]),
+                'prob': rng.choice([0.0, 0.05, 0.3, 0.5, 0.9, 1.0]), 'seed': rng.choice([20, 0, 1, 7, 99, 3, 29] + [rng.randint(0, 10 ** 6) for _ in range(5)]),
                 'runtimes': sorted(set([0, 1, 2] + [rng.randint(0, 60) for _ in range(8)])),
                 # other models used in the same interpreter between two evaluations of this one: same
                 # distribution and seed with another degree / probability (a parameter sweep), or anything
@@ -704,7 +704,7 @@ def exec_units(case, d):
     named = {'seconds': 1, 'minutes': 60, 'hours': 3600}
     if isinstance(sc['unit'], str):
         for m in pk['mach']:
-            if not close(pk['mach'][m][0], sc['machines'][m]['flops'] * named[sc['unit']]):
+            if not close(pk['mach'][m][0], sc['machines'][m]['flops'] * named.get(sc['unit'], 1)):
                 add('named_unit_factor', '%s: %s' % (sc['unit'], pk['mach'][m]), site='cluster')
     # (ii) trajectory differential
     rk = sut.run_scenario(sc, d)
